@@ -1,0 +1,91 @@
+//go:build verif
+
+// Machine-checked contracts for this package (guard: build tag `verif`; this file contains comments only).
+// Read by /verif/bin/govc: each `//@ unit` section is one verification unit (the functions matching `filter`,
+// verified against the contracts of the section; callees are used through their contracts only).
+
+package gzip
+
+//@ unit skip_compressed props=C18 filter=`SkipCompressedFilter\)\.ShouldCompress$`
+//@ extern invoke:(net/http.ResponseWriter).Header
+//@   pure
+//@ extern (net/http.Header).Get
+//@   pure reads MV:net/http.Header
+//@ func (SkipCompressedFilter).ShouldCompress
+//@   ensures [already_encoded] (w.Header().Get("Content-Encoding") != "" && w.Header().Get("Content-Encoding") != "identity") ==> result == false
+//@   ensures [plain_is_compressed] w.Header().Get("Content-Encoding") == "" ==> result == true
+
+//@ unit response_filter_writer props=C18 filter=`gzip\.ResponseFilterWriter\)\.(Write|WriteHeader)$`
+//@ ghost gzAnnounced int
+//@ ghost rawBody int
+//@ ghost gzBody int
+//@ ghost committed int
+
+//@ extern invoke:(net/http.ResponseWriter).WriteHeader
+//@   modifies ghost:committed
+//@   ensures committed == old(committed) + 1
+//@ extern invoke:(net/http.ResponseWriter).Write
+//@   modifies ghost:rawBody
+//@   ensures rawBody == old(rawBody) + 1
+//@ func (*gzipResponseWriter).Writer
+//@   ensures result != nil
+//@ extern (*compress/gzip.Writer).Reset
+//@ func (*gzipResponseWriter).WriteHeader
+//@   requires w != nil
+//@   modifies ghost:gzAnnounced, ghost:committed, gzipResponseWriter.statusCodeWritten
+//@   ensures gzAnnounced == 1 && committed == old(committed) + 1 && w.statusCodeWritten
+//@ func (*gzipResponseWriter).Write
+//@   requires w != nil
+//@   modifies ghost:gzAnnounced, ghost:committed, ghost:gzBody, gzipResponseWriter.statusCodeWritten
+//@   ensures gzBody == old(gzBody) + 1 && w.statusCodeWritten && (old(w.statusCodeWritten) ==> (gzAnnounced == old(gzAnnounced) && committed == old(committed))) && (!old(w.statusCodeWritten) ==> (gzAnnounced == 1 && committed == old(committed) + 1))
+
+//@ define coherent(r *ResponseFilterWriter) bool = r.gzipResponseWriter != nil && r.gzipResponseWriter.ResponseWriterWrapper != nil && (r.statusCodeWritten ==> ((r.shouldCompress ==> (gzAnnounced == 1 && r.gzipResponseWriter.statusCodeWritten)) && (!r.shouldCompress ==> gzAnnounced == 0))) && (!r.statusCodeWritten ==> (gzAnnounced == 0 && !r.gzipResponseWriter.statusCodeWritten))
+
+//@ func (*ResponseFilterWriter).WriteHeader
+//@   requires r != nil && coherent(r) && !r.statusCodeWritten && forall(k, 0, len(r.filters), r.filters[k] != nil)
+//@   modifies ghost:gzAnnounced, ghost:committed, ResponseFilterWriter.shouldCompress, ResponseFilterWriter.statusCodeWritten, gzipResponseWriter.statusCodeWritten
+//@   ensures [commits_once] committed == old(committed) + 1
+//@   ensures [coherent] coherent(r) && r.statusCodeWritten
+//@   ensures [announce_iff_compress] (r.shouldCompress ==> gzAnnounced == 1) && (!r.shouldCompress ==> gzAnnounced == 0)
+//@   loop 1 invariant 0 <= #i && #i <= len(r.filters) && r.filters == old(r.filters) && r.gzipResponseWriter == old(r.gzipResponseWriter) && gzAnnounced == old(gzAnnounced) && committed == old(committed) && !r.statusCodeWritten && coherent(r)
+
+//@ func (*ResponseFilterWriter).Write
+//@   requires r != nil && coherent(r) && forall(k, 0, len(r.filters), r.filters[k] != nil)
+//@   modifies ghost:gzAnnounced, ghost:committed, ghost:gzBody, ghost:rawBody, ResponseFilterWriter.shouldCompress, ResponseFilterWriter.statusCodeWritten, gzipResponseWriter.statusCodeWritten
+//@   ensures [coherent] coherent(r) && r.statusCodeWritten
+//@   ensures [one_body_write] gzBody + rawBody == old(gzBody) + old(rawBody) + 1
+//@   ensures [gzip_bytes_announced] gzBody > old(gzBody) ==> gzAnnounced == 1
+//@   ensures [raw_bytes_not_announced] rawBody > old(rawBody) ==> gzAnnounced == 0
+//@   ensures [commit_at_most_once] committed <= old(committed) + 1 && (old(r.statusCodeWritten) ==> committed == old(committed))
+
+//@ unit gzip_handler props=C12,C18 filter=`gzip\.Gzip\)\.ServeHTTP$`
+//@ ghost nextCalls int
+//@ ghost errBodies int
+//@ ghost nextRet int
+//@ extern invoke:(github.com/tmpim/casket/caskethttp/httpserver.Handler).ServeHTTP
+//@   modifies ghost:nextCalls, ghost:nextRet
+//@   ensures nextCalls == old(nextCalls) + 1 && nextRet == result0
+//@ extern github.com/tmpim/casket/caskethttp/httpserver.DefaultErrorFunc
+//@   modifies ghost:errBodies
+//@   ensures errBodies == old(errBodies) + 1
+//@ extern invoke:(github.com/tmpim/casket/caskethttp/gzip.RequestFilter).ShouldCompress
+//@   pure
+//@ extern strings.Contains
+//@   pure
+//@ extern (net/http.Header).Get
+//@   pure
+//@ func NewResponseFilterWriter
+//@   ensures result != nil
+//@ func (*gzipResponseWriter).Writer
+//@ func putWriter
+
+//@ func (Gzip).ServeHTTP
+//@   requires r != nil && g.Next != nil
+//@   requires forall(k, 0, len(g.Configs), forall(j, 0, len(g.Configs[k].RequestFilters), g.Configs[k].RequestFilters[j] != nil))
+//@   modifies ghost:nextCalls, ghost:errBodies, ghost:nextRet
+//@   ensures [next_once] nextCalls == old(nextCalls) + 1
+//@   ensures [no_gzip_passthrough] !strings.Contains(r.Header.Get("Accept-Encoding"), "gzip") ==> (result0 == nextRet && errBodies == old(errBodies))
+//@   ensures [error_written_once_then_zero] errBodies <= old(errBodies) + 1 && (errBodies == old(errBodies) + 1 ==> (result0 == 0 && nextRet >= 400))
+//@   ensures [status_consumed_when_wrapping] (errBodies == old(errBodies) && result0 >= 400) ==> result0 == nextRet
+//@   loop 1 invariant 0 <= #i && #i <= len(g.Configs) && nextCalls == old(nextCalls) && errBodies == old(errBodies)
+//@   loop 2 invariant 0 <= #i2 && #i2 <= len(c.RequestFilters) && nextCalls == old(nextCalls) && errBodies == old(errBodies)
